@@ -56,6 +56,8 @@ pub mod bincode {
     { unimplemented!() }
 }
 #[verifier::external_body]
+pub fn fmt_stub() -> (r: String) { unimplemented!() }
+#[verifier::external_body]
 pub fn now() -> (r: i64) { unimplemented!() }   // the clock: any value
 #[verifier::external_body]
 pub fn base64_encode(data: &[u8]) -> (r: String) { unimplemented!() }
@@ -266,8 +268,12 @@ impl RoomAuthorisations {
             final(entity_to_mutate).edge_deletions == old(entity_to_mutate).edge_deletions,
             final(entity_to_mutate).edge_deletions_log == old(entity_to_mutate).edge_deletions_log,
     { unimplemented!() }
+    // E8 cut: the loop of validate_room_mutation over `&mut insert_entity.sub_nodes` (admin entries, groups; HashMap IterMut).
+    // ASSUMED: only grows `room` through the add_* mutators / validate_authorisation_mutation and reports whether the change
+    // needs the room-admin right.
     #[verifier::external_body]
-    pub fn validate_room_mutation(&self, insert_entity: &mut InsertEntity, verifying_key: &Vec<u8>) -> (r: Result<Option<Room>>)
+    pub fn cut_room_sub_nodes(&self, sub_nodes: &mut HashMap<String, Vec<InsertEntity>>, room: &mut Room, verifying_key: &Vec<u8>) -> (r: Result<bool>)
+        ensures final(room).id == old(room).id
     { unimplemented!() }
 }
 
@@ -317,14 +323,14 @@ pub closed spec fn is_system_entity(e: Seq<char>) -> bool {
 }
 pub closed spec fn vk_of(ra: RoomAuthorisations) -> Vec<u8> { vec_of(ra.signing_key.spec_vk()) }
 pub closed spec fn own(author: Vec<u8>, caller: Seq<u8>) -> RightType { if author@ =~= caller { RightType::MutateSelf } else { RightType::MutateAll } }
-/// C01 for one row named in a deletion: not a system entity; if it belongs to a room, the room is known and grants the caller
-/// the needed right: the own-rows right at the date the deletion was prepared (`nd.date`) for rows the caller authored,
-/// the all-rows right at the validation date `t` (the date recorded in the signed deletion record) for rows of other authors
+/// C01 / C12 for one row named in a deletion: not a system entity; if it belongs to a room, the room is known and grants the
+/// caller the needed right (own-rows right for rows the caller authored, all-rows right otherwise) at the date `t` that is
+/// recorded in the signed deletion record - the very date at which peers check the record
 pub closed spec fn node_delete_ok(ra: RoomAuthorisations, nd: NodeDelete, t: i64) -> bool {
     !is_system_entity(nd.name@)
     && (nd.node.room_id is Some ==> ra.rooms@.contains_key(nd.node.room_id->Some_0)
           && spec_can(ra.rooms@[nd.node.room_id->Some_0], vk_of(ra), nd.name@,
-                      if nd.node.verifying_key@ =~= ra.signing_key.spec_vk() { nd.date } else { t },
+                      t,
                       own(nd.node.verifying_key, ra.signing_key.spec_vk())))
 }
 pub closed spec fn edge_delete_ok(ra: RoomAuthorisations, ed: EdgeDelete, t: i64) -> bool {
@@ -332,7 +338,7 @@ pub closed spec fn edge_delete_ok(ra: RoomAuthorisations, ed: EdgeDelete, t: i64
     !is_system_entity(ed.src_name@)
     && (ed.room_id is Some ==> ra.rooms@.contains_key(ed.room_id->Some_0)
           && spec_can(ra.rooms@[ed.room_id->Some_0], vk_of(ra), ed.src_name@,
-                      if ed.edge.verifying_key@ =~= ra.signing_key.spec_vk() { ed.date } else { t },
+                      t,
                       own(ed.edge.verifying_key, ra.signing_key.spec_vk())))
 }
 /// every deletion record appended by this call is signed by the caller, dated `t`, and names a room of some row of the request
@@ -415,5 +421,36 @@ pub proof fn L_size_limit_agrees(ra: RoomAuthorisations, t: NodeToMutate, n: Nod
         !spec_local_row_ok(ra, t, caller), !spec_validate_node(ra, n),
 {
 }
+
+// ================================================================= room mutations (C01: a room's definition is changed only by its admins)
+impl Room {
+    #[verifier::external_body]
+    pub fn clone(&self) -> (r: Room) ensures r == *self { unimplemented!() }
+    #[verifier::external_body]
+    pub fn default() -> (r: Room) ensures r.admins@ == Map::<Vec<u8>, Vec<User>>::empty(), r.authorisations@ == Map::<Uid, Authorisation>::empty() { unimplemented!() }
+}
+
+//@ extract src/database/authorisation_service.rs :: impl RoomAuthorisations / fn validate_room_mutation
+//@ result r
+//@ rewrite E16 "\"sys\.[A-Za-z]+\"\.to_string\(\)" => "fmt_stub()" x*
+//@ rewrite E16 "ROOM_ENT\.to_string\(\)" => "fmt_stub()" x*
+//@ rewrite E3 "\.\.Default::default\(\)" => "..Room::default()" x1
+//@ cut "for entry in &mut insert_entity.sub_nodes" => "need_room_admin = self.cut_room_sub_nodes(&mut insert_entity.sub_nodes, &mut room, verifying_key)?;"
+//@ insert body-start
+        proof { assert(<[u8; 16] as PartialEqSpec<[u8; 16]>>::obeys_eq_spec()); }
+//@ spec
+        requires rooms_wf(*self),
+        ensures
+            // [existing_room_changed_only_by_admin]{C01} a mutation of a room that already exists is accepted only if the caller is an admin of that room, as it is defined now, at the operation's date
+            r is Ok && r->Ok_0 is Some && old(insert_entity).node_to_mutate.old_node is Some ==>
+                self.rooms@.contains_key(old(insert_entity).node_to_mutate.old_node->Some_0.id)
+                && spec_is_admin(self.rooms@[old(insert_entity).node_to_mutate.old_node->Some_0.id], *verifying_key, old(insert_entity).node_to_mutate.date),
+            // [room_rows_carry_no_room_id]{C01} a new room row never claims to live in another room
+            r is Ok && r->Ok_0 is Some && old(insert_entity).node_to_mutate.old_node is None ==> old(insert_entity).node_to_mutate.room_id is None,
+            // [no_reference_removal_on_rooms]{C01} references of a room (admins, groups) are never removed
+            r is Ok ==> old(insert_entity).edge_deletions@.len() == 0,
+            // [resulting_room_keeps_identity]{C01} the definition produced is the definition of that very room
+            r is Ok && r->Ok_0 is Some && old(insert_entity).node_to_mutate.old_node is Some ==> r->Ok_0->Some_0.id == old(insert_entity).node_to_mutate.old_node->Some_0.id,
+//@ end
 } // verus!
 fn main() {}
